@@ -633,7 +633,8 @@ def strs_field(ls):
 def fold_replay(r, s, fn):
     call = {"regexp-fold": "(regexp-fold (quote %s) (lambda (i m s a) (cons (cons (regexp-match-submatch-start m 0) (regexp-match-submatch-end m 0)) a)) (quote ()) %s (lambda (i m s a) (reverse a)))",
             "regexp-extract": "(regexp-extract (quote %s) %s)", "regexp-split": "(regexp-split (quote %s) %s)",
-            "regexp-partition": "(regexp-partition (quote %s) %s)", "regexp-replace": "(regexp-replace (quote %s) %s \"-\")"}[fn] % (scm(r), str_scm(s))
+            "regexp-partition": "(regexp-partition (quote %s) %s)", "regexp-replace": "(regexp-replace (quote %s) %s \"-\")",
+            "regexp-replace-all": "(regexp-replace-all (quote %s) %s \"-\")"}[fn] % (scm(r), str_scm(s))
     return ("printf '%%s' '(import (scheme base) (scheme write) (chibi regexp)) (write %s) (newline)' | "
             "LD_LIBRARY_PATH=$D CHIBI_MODULE_PATH=$D/lib $D/chibi-scheme /dev/stdin   # D = scratch build of the tree under test" % call)
 
@@ -675,7 +676,13 @@ def fold_stage(ctx, exe, d, cases, label):
             exp["regexp-partition"] = strs_field(part)
             if s:
                 exp["regexp-replace"] = strs_field([s[:spans[0][0]] + (0x2d,) + s[spans[0][1]:]] if spans else [s])
-            got = dict(zip(["regexp-fold", "regexp-extract", "regexp-split", "regexp-partition", "regexp-replace"], [x[1:] for x in ir.split(";")]))
+            if len(ne) == len(spans):
+                # no empty match: every match is replaced once (with empty matches SRFI 115 leaves the result open)
+                out, prev = (), 0
+                for a, b in ne:
+                    out += s[prev:a] + (0x2d,); prev = b
+                exp["regexp-replace-all"] = strs_field([out + s[prev:]])
+            got = dict(zip(["regexp-fold", "regexp-extract", "regexp-split", "regexp-partition", "regexp-replace", "regexp-replace-all"], [x[1:] for x in ir.split(";")]))
             for fn, want in exp.items():
                 if got.get(fn) != want:
                     ctx.violation("%s:differs-from-successive-leftmost-longest:%s" % (fn, cls), input=dict(sre=scm(r), string=str_scm(s), sre_model=proto(r)),
@@ -867,7 +874,7 @@ def run(ctx):
                        "depth 5 x strings to length 12 over 3-4 letters (+ newline, upper case); Unicode samples (2/3/4-byte characters, case pairs). "
                        "Each pair: regexp-matches and regexp-search vs the verified matcher (boolean, span 0, leftmost-longest for greedy SREs) and "
                        "all reported spans through the verified validator check_spans; for greedy SREs also regexp-fold, "
-                       "regexp-extract, regexp-split, regexp-partition, regexp-replace vs the proved fold_spans. Distinct by (SRE, string); non-trivial when the SRE has an "
+                       "regexp-extract, regexp-split, regexp-partition, regexp-replace, regexp-replace-all vs the proved fold_spans. Distinct by (SRE, string); non-trivial when the SRE has an "
                        "operator and the string is non-empty")
     ctx.coq_obligations("Properties_C20")
     d = ctx.build("default")
